@@ -105,6 +105,8 @@ func runOne(t *testing.T, scn *Scenario, tier string, seed uint64, plan *Plan, k
 	}
 	ctx.Plan = plan
 	res.Plan = plan
+	curRun.Store(res)
+	progressTick()
 	start := time.Now()
 	body := func(t *testing.T) {
 		rand.Seed(int64(hash64(seed, 0x72616e64) >> 1))
@@ -168,6 +170,9 @@ func runOne(t *testing.T, scn *Scenario, tier string, seed uint64, plan *Plan, k
 				msg := fmt.Sprint(r)
 				st := string(debug.Stack())
 				if strings.Contains(msg, "deadlock: main bubble goroutine has exited but blocked goroutines remain") {
+					if res.HarnessErr != "" {
+						return // the run was abandoned on a harness error before its teardown
+					}
 					ctx.Violate("goroutine-leak", "", "", "blocked goroutines remain at bubble exit: %s", msg)
 					return
 				}
@@ -208,11 +213,7 @@ func panicInRepo(stack string) bool {
 		if strings.Contains(l, "/src/runtime/") || strings.Contains(l, "/src/testing/") {
 			continue
 		}
-		root := os.Getenv("VERIF_REPO")
-		if root == "" {
-			root = "/repo"
-		}
-		return strings.HasPrefix(l, root+"/") && !strings.Contains(l, "zz_verif_")
+		return strings.HasPrefix(l, repoRoot()+"/") && !strings.Contains(l, "zz_verif_")
 	}
 	return false
 }
@@ -323,7 +324,7 @@ func runPlanSubprocess(scn string, tier string, p *Plan, dir string, tag string)
 	_ = os.WriteFile(pf, b, 0o644)
 	_ = os.Remove(of)
 	cmd := exec.Command(os.Args[0], "-test.run", "^TestVerifSim$", "-test.timeout", "0")
-	cmd.Env = append(os.Environ(), "VERIF_SCN="+scn, "VERIF_PLAN="+pf, "VERIF_OUT="+of, "VERIF_TIER="+tier, "VERIF_MINIMIZE=0", "VERIF_SEEDS=")
+	cmd.Env = append(os.Environ(), "VERIF_SCN="+scn, "VERIF_PLAN="+pf, "VERIF_OUT="+of, "VERIF_TIER="+tier, "VERIF_MINIMIZE=0", "VERIF_SEEDS=", "VERIF_STALL_S=12")
 	outb, _ := cmd.CombinedOutput()
 	defer os.Remove(pf)
 	defer os.Remove(of)
@@ -425,6 +426,7 @@ func TestVerifSim(t *testing.T) {
 		b = append(b, '\n')
 		_, _ = out.Write(b)
 	}
+	startStallMonitor(emit)
 	keepTrace := os.Getenv("VERIF_TRACE") == "1"
 	doMin := os.Getenv("VERIF_MINIMIZE") == "1"
 	replayDir := os.Getenv("VERIF_REPLAY_DIR")
@@ -486,6 +488,7 @@ func TestVerifSim(t *testing.T) {
 		res := runOne(t, scn, tier, seed, nil, keepTrace)
 		if !res.OK && res.HarnessErr == "" && doMin && minimized < 2 {
 			minimized++
+			stallPaused.Store(true)
 			key := violationKey(res, "")
 			mp, tries := minimize(scnName, tier, res.Plan, key, tmpDir, 150, time.Now().Add(60*time.Second))
 			if planSize(mp) < planSize(res.Plan) {
@@ -502,6 +505,8 @@ func TestVerifSim(t *testing.T) {
 				}
 			}
 		}
+		stallPaused.Store(false)
+		progressTick()
 		if !res.OK && replayDir != "" && res.HarnessErr == "" {
 			rp := fmt.Sprintf("%s/%s-%d.json", replayDir, scnName, seed)
 			b, _ := json.MarshalIndent(res, "", " ")
@@ -524,4 +529,11 @@ func TestVerifSim(t *testing.T) {
 		emit(res)
 	}
 	emit(map[string]any{"done": true})
+}
+
+func repoRoot() string {
+	if root := os.Getenv("VERIF_REPO"); root != "" {
+		return root
+	}
+	return "/repo"
 }
